@@ -53,7 +53,7 @@ def scenarios_for(prop, tier, rng):
     if prop == "C03":
         cases, r = tlc_cases("c03", 0, f"{prop}-gen"); gens.append(r)
         return agentgen.c03_scenarios(cases, prop), gens, {"c03_cases": len(cases)}
-    if prop == "C15":
+    if prop in ("C15", "C17"):
         cases, r = tlc_cases("c15", 0, f"{prop}-gen"); gens.append(r)
         if not thorough:
             rng.shuffle(cases); cases = cases[:60]
